@@ -34,7 +34,8 @@ enum OpKind
   OP_ADDEVENT,     // a=span b=overload 0..3 d=seed
   OP_SETSTATUS,    // a=span b=code d=seed
   OP_UPDATENAME,   // a=span d=seed
-  OP_END           // a=span b=explicit end (steady ns offset from start, 0 = now)
+  OP_END,          // a=span b=explicit end (steady ns offset from start, 0 = now)
+  OP_ADDPROC       // a further (simple) processor is added to the provider while spans are in flight
 };
 enum EvType
 {
@@ -45,7 +46,7 @@ enum EvType
   E_RELEASE_INV,    // a=span (root drops the last reference: destructor End)
   E_RELEASE_RET
 };
-const int kMaxSpans = 2;
+const int kMaxSpans = 2, kLate = 2;
 
 struct Snap
 {
@@ -234,6 +235,8 @@ struct World
   const Case *c = nullptr;
   // per exporter: span id -> snaps received
   std::vector<std::map<std::string, std::vector<Snap>>> got;
+  sdktrace::TracerProvider *prov = nullptr;
+  int nproc = 0, late = 0;  // late: processors added by OP_ADDPROC (at most kLate)
   std::vector<nostd::shared_ptr<trace_api::Span>> spans;
   std::vector<std::string> span_ids;
   const void *resource = nullptr, *scope = nullptr, *scope2 = nullptr;
@@ -256,6 +259,8 @@ public:
     hz::HarnessCode hc_;
     for (auto &r : spans)
     {
+      if (!r)
+        continue;
       const sdktrace::SpanData *sd =
           idx_ == 0 ? &static_cast<YieldingRecordable *>(r.get())->data
                     : static_cast<sdktrace::SpanData *>(r.get());
@@ -352,6 +357,22 @@ void run_program(World &w, int idx, const TaskProg &t)
   {
     const Op &op = t.ops[oi];
     vsim::yield();
+    if (op.kind == OP_ADDPROC)
+    {
+      // TracerProvider::AddProcessor with spans in flight. Every span of the run was started
+      // before, so nothing is demanded of the late processor's exporter (it may or may not see
+      // those spans); the processors configured from the start must be unaffected.
+      if (w.late < kLate && w.prov)
+      {
+        int x = w.nproc + w.late++;
+        std::unique_ptr<sdktrace::SpanExporter> e(new CaptureExporter(x));
+        std::unique_ptr<sdktrace::SpanProcessor> p(new sdktrace::SimpleSpanProcessor(std::move(e)));
+        InOp io;
+        w.prov->AddProcessor(std::move(p));
+        vsim::probe("span.processor_added_with_spans_in_flight");
+      }
+      continue;
+    }
     trace_api::Span *sp = w.spans[op.a % w.spans.size()].get();
     val::Scratch sc;
     ev(E_OP_INV, idx, (int64_t)oi, vsim::peek_now_ns());
@@ -420,7 +441,8 @@ void body(const Case &c)
   w.c = &c;
   int nproc = (int)c.knob("nproc", 1), layout = (int)c.knob("layout", 0);
   int nspans = (int)c.knob("nspans", 1);
-  w.got.resize(nproc);
+  w.got.resize(nproc + kLate);
+  w.nproc = nproc;
   w.spans.resize(nspans);
   w.span_ids.resize(nspans);
   {
@@ -469,6 +491,7 @@ void body(const Case &c)
         provp.reset(new sdktrace::TracerProvider(std::move(procs), res));
     }
     sdktrace::TracerProvider &prov = *provp;
+    w.prov = &prov;
     g_tracer   = prov.GetTracer("span-engine", "1.0");
     w.resource = &prov.GetResource();
     w.scope    = &static_cast<sdktrace::Tracer *>(g_tracer.get())->GetInstrumentationScope();
@@ -485,6 +508,7 @@ void body(const Case &c)
       ev(E_RELEASE_RET, s, vsim::peek_now_ns());
     }
     prov.ForceFlush();
+    w.prov    = nullptr;
     g_tracer  = nostd::shared_ptr<trace_api::Tracer>(nullptr);
     g_tracer2 = nostd::shared_ptr<trace_api::Tracer>(nullptr);
   }
@@ -856,6 +880,12 @@ void generate(const std::string &, Rng &wl, Rng &fl, Case &c)
         p.ops.push_back({OP_SETATTR, s, (int64_t)wl.below(4), (int64_t)wl.below(val::kAlts),
                          (int64_t)(wl.next() >> 2)});
     }
+    if (wl.chance(0.08))
+    {
+      p.ops.insert(p.ops.begin() + (long)wl.below(p.ops.size() + 1), {OP_ADDPROC, 0, 0, 0, 0});
+      if (c.stratum.find(".addproc") == std::string::npos)
+        c.stratum += ".addproc";
+    }
     c.tasks.push_back(p);
   }
   vsim::draw_run_config(fl, sk, c.rc);
@@ -887,6 +917,8 @@ std::string describe_op(const Case &, int, const Op &op)
       return fmt("span[%lld].UpdateName(seed %llx)", (long long)op.a, (unsigned long long)op.d);
     case OP_END:
       return fmt("span[%lld].End(%s)", (long long)op.a, op.b ? "explicit end time" : "now");
+    case OP_ADDPROC:
+      return "provider.AddProcessor(simple processor) while spans are in flight";
   }
   return "?";
 }
